@@ -93,6 +93,31 @@ def run(chk, replay=None):
                                 if rc != 0 or got != want:
                                     chk.violate('CLI output differs across channels / from the line-local map', dict(case, rc=rc, got=got[:300].decode('utf-8', 'replace'), want=want[:300].decode('utf-8', 'replace'), stderr=se[-200:].decode('utf-8', 'replace')), tags=['cli', chan, outc])
     chk.streams.append({'stream': 'CLI: {file, gzip (2 members), stdin} x {stdout, --outputFile} x {LF, CRLF} x {final newline or not} x 2 repetitions', 'logs': len(sample)})
+    # flag wiring: every PAIR of settings of the redaction flags together at least once, through the CLI (file -> --outputFile and stdin -> stdout),
+    # against the stream processor called in-process with the same settings through the setters (what main.go has to wire up)
+    import base64 as _b64
+    wl = [l for l in pool[:60] if len(l) < 20000 and b'\n' not in l]
+    data = b'\n'.join(wl) + b'\n'
+    for cfgp in streams.pairwise_cfgs(with_eager=True):
+        if cfgp.re and cfgp.eager: cfgp.eager = []          # --redactFieldsRegexp and --redactFieldNames exclude each other (C18)
+        want = streamlib.impl_stream(cfgp, [{'data': data}])[0][1]
+        with tempfile.TemporaryDirectory() as d:
+            f = os.path.join(d, 'in.log'); open(f, 'wb').write(data)
+            kf = os.path.join(d, 'k.key'); open(kf, 'wb').write(_b64.b64encode(streams.KEY))
+            o = os.path.join(d, 'out.log')
+            rc, so, se = streamlib.cli_run(['redact', f, '-o', o] + cfgp.cli_flags(kf))
+            got = open(o, 'rb').read() if os.path.exists(o) else b''
+            chk.count(); chk.nontriv(('wiring', str(cfgp.describe())))
+            if rc != 0 or got != want:
+                i = next((i for i in range(min(len(got), len(want))) if got[i] != want[i]), 0)
+                chk.violate('CLI output under a flag combination differs from the line-local map under that configuration', {'flags': cfgp.cli_flags('KEYFILE'), 'rc': rc, 'stderr': se[-200:].decode('utf-8', 'replace'),
+                            'got_around': got[max(0, i - 120):i + 120].decode('utf-8', 'replace'), 'want_around': want[max(0, i - 120):i + 120].decode('utf-8', 'replace')}, tags=['cli', 'flags'])
+            if not cfgp.encrypt:
+                rc, so, se = streamlib.cli_run(['redact'] + cfgp.cli_flags(kf), stdin_bytes=data)
+                chk.count()
+                if rc != 0 or so != want:
+                    chk.violate('CLI (stdin -> stdout) under a flag combination differs from the line-local map under that configuration', {'flags': cfgp.cli_flags('KEYFILE'), 'rc': rc, 'stderr': se[-200:].decode('utf-8', 'replace')}, tags=['cli', 'flags'])
+    chk.streams.append({'stream': 'CLI flag wiring: pairwise flag combinations x {file -> file, stdin -> stdout} vs the in-process stream processor', 'lines': len(wl)})
     chk.sample({'log': [l.decode('utf-8', 'replace')[:160] for l in logs[3]]})
     chk.assumptions += ["that file, gzip and stdin feed the same bytes to the same loop, and that stdout and --outputFile receive the same bytes, is code structure + OS behaviour: covered by the CLI stream, not by the theorem",
                         "CRLF equivalence is claimed for lines that do not themselves end in CR"]
